@@ -19,9 +19,17 @@ def refresh(pid):
 
 def main():
     tail = ''
-    if sys.argv[1] == '--refresh':
+    if sys.argv[1] in ('--refresh', '--add'):
         pid = sys.argv[2]
         title, requires, args, tail = refresh(pid)
+        if sys.argv[1] == '--add':
+            # --add PID 'From VQ Require Import X.' name=lemma ...   (extra import line may be empty)
+            if sys.argv[3].strip() and sys.argv[3] not in requires:
+                lines = requires.split('\n')
+                k = max(i for i, l in enumerate(lines) if l.startswith('From '))
+                lines.insert(k + 1, sys.argv[3])
+                requires = '\n'.join(lines)
+            args += sys.argv[4:]
         pairs = [a.split('=') for a in args]
     else:
         pid, title, requires = sys.argv[1], sys.argv[2], sys.argv[3]
